@@ -40,13 +40,16 @@ PW = 's3cret-PW-9'
 BANNERS = ['Welcome to h\n', 'Last login: Mon Jan 1\n', 'Cost: 5$ per hour\n', '### MOTD ###\n',
            'Your password: expires soon\n', 'ok\n']
 PROMPTS = ['user@h:~$ ', '# ', '% ', '> ', '[u@h ~]$ ']
-STEP_ALPHA = [['hostkey'], ['password', True], ['password', False], ['passphrase', True], ['denied'], ['terminal'],
+STEP_ALPHA = [['hostkey'], ['password', True], ['password', False], ['password', 'quiet'], ['passphrase', True], ['denied'], ['terminal'],
               ['banner', 'Cost: 5$ per hour\n'], ['banner', 'Your password: expires soon\n'], ['closed'], ['silence', 3.5],
               ['exit', 0], ['shell', 'sh', 'user@h:~$ '], ['shell', 'csh', '% '], ['shell', 'zsh', 'h# ']]
 # deterministic minimum cases (both tiers): (steps, option overrides)
 FIXED = [
     ([['password', False], ['password', True], ['shell', 'sh', 'user@h:~$ ']], {}),        # a second password prompt
     ([['password', False], ['password', False], ['denied']], {}),
+    ([['password', 'quiet'], ['password', True], ['shell', 'sh', 'user@h:~$ ']], {}),      # asked again without a refusal text
+    ([['password', 'quiet'], ['password', 'quiet'], ['password', 'quiet'], ['exit', 1]], {}),
+    ([['hostkey'], ['passphrase', 'quiet'], ['passphrase', True], ['shell', 'sh', '$ ']], {'auto_prompt_reset': False, 'sync_original_prompt': False}),
     ([['hostkey'], ['hostkey'], ['shell', 'sh', '$ ']], {}),                               # the host-key question twice
     ([['terminal'], ['hostkey'], ['password', True], ['shell', 'sh', '$ ']], {}),
     ([['password', True], ['shell', 'weird', 'user@h:~$ ']], {}),                           # no prompt-setting command works
